@@ -29,7 +29,7 @@ PROPS = {
         "A-PRIME: field moduli and curve orders of alt_bn128 and BLS12-381 are prime (standard constants)",
         "field classes implement field arithmetic (proved separately: C08)"],
         text="add/double/neg/eq/is_on_curve/is_inf of the two reference modules (affine, None = infinity) and of the two optimized modules (projective) are proved on every path to compute the affine group law for every field of characteristic > 3 (so for base curve, twist and E(F_p^12) at once); multiply in all four modules is proved by induction to be the n-fold sum for every n >= 0; the abelian-group axioms of the spec law are the Lean lemma L-GROUP; generators, coefficients, moduli, orders are compared with pinned standard literals and their family derivations (eval).",
-        note="Assumes primality of the standard moduli/orders (A-PRIME) and that the field classes are fields (C08). The twist-embedding clause is decided by the closed facts and the twist contract where built; see evidence.notes.",
+        note="Assumes primality of the standard moduli/orders (A-PRIME) and that the field classes are fields (C08). The twist clauses: image on E(F_p^12) for every twist point (units *.twist), optimized = reference (units twist.agree.*), embedding/injectivity by the closed fact twist.embedding + Lean scaling lemmas.",
         design_ref="DESIGN.md section 8 C07"),
     "C08": dict(level="proof", trusted=_COMMON_TRUST + [
         "ModInt reading: integers in the field classes are interpreted through the ring homomorphism Z -> Z/p with a tracked 'reduced' flag (DESIGN section 4 L1)"],
